@@ -193,22 +193,71 @@ def kwargs_of(case):
 # ----------------------------------------------------------------------------
 # running the implementation with the direction recorder
 # ----------------------------------------------------------------------------
+def ls_margin(direction, grad, m_old, sparse, x, Pi):
+    """Smallest relative margin of the comparisons `tt_linesearch_prowsubprob` makes on these inputs
+    (descent test, small-sum tests, sufficient decrease, final `f_new > f_old`), recomputed with the
+    implementation's own row objective.  A margin at rounding level means the outcome of the call is
+    decided by rounding noise.  Exact zeros of `gDotd` (no movement) are not ties."""
+    best = math.inf
+    with np.errstate(all="ignore"):
+        g = np.asarray(grad, dtype=float).reshape(-1)
+        f_old = -C.tt_loglikelihood_row(sparse, x, m_old, Pi)
+        step, count, f_new = 1.0, 1, math.inf
+        while count <= 10:
+            mn = m_old + step * direction
+            mn = mn * (mn > 0)
+            terms = g * (mn - m_old)
+            gd = float(np.sum(terms))
+            sm = float(np.sum(mn))
+            if gd != 0:
+                best = min(best, abs(gd) / (float(np.sum(np.abs(terms))) + 1e-300))
+            best = min(best, abs(sm - 1e-7) / 1e-7)
+            if gd > 0 or sm < 1e-7:
+                f_new = math.inf
+            else:
+                f_new = float(-C.tt_loglikelihood_row(sparse, x, mn, Pi))
+                rhs = f_old + 1e-4 * gd
+                if math.isfinite(f_new) and math.isfinite(rhs):
+                    best = min(best, abs(f_new - rhs) / max(1.0, abs(f_old)))
+                if f_new <= rhs:
+                    break
+            step *= 0.5
+            count += 1
+        if count >= 10 and math.isfinite(f_new) and math.isfinite(f_old):
+            best = min(best, abs(f_new - f_old) / max(1.0, abs(f_old)))
+    return best
+
+
+TIE = 1e-9
+
+
 @contextlib.contextmanager
-def recording(alg, rec):
+def recording(alg, rec, calls=None):
     orig = C.tt_linesearch_prowsubprob
     primed = set()
 
-    def wrap(direction, grad, model_old, *a, **k):
+    def wrap(direction, grad, model_old, step_len, step_red, max_steps, suff_decr, isSparse, data_row, Pi,
+             phi_row, display_warning):
         f = sys._getframe(1).f_locals
         key = (int(f["iteration"]), int(f["n"]), int(f["jj"]), int(f["i"]))
-        R = int(np.asarray(model_old).reshape(-1).shape[0])
+        m_old = np.array(model_old, dtype=float).reshape(-1)
+        R = int(m_old.shape[0])
         d = np.asarray(direction, dtype=float)
-        d = np.full(R, float(d)) if d.ndim == 0 else np.broadcast_to(d.reshape(-1), (R,))
+        d = np.full(R, float(d)) if d.ndim == 0 else np.array(np.broadcast_to(d.reshape(-1), (R,)))
         if alg == "pqnr" and key[3] == 0 and key not in primed:
             primed.add(key)  # the gradient step that primes L-BFGS: the model computes it itself
         else:
             rec.append({"it": key[0], "n": key[1], "jj": key[2], "i": key[3], "d": bd(d.tolist())})
-        return orig(direction, grad, model_old, *a, **k)
+        res = orig(direction, grad, model_old, step_len, step_red, max_steps, suff_decr, isSparse, data_row, Pi,
+                   phi_row, display_warning)
+        if calls is not None:
+            calls.append({"margin": ls_margin(d, grad, m_old, isSparse, data_row, Pi),
+                          "sparse": bool(isSparse), "x": np.array(data_row, dtype=float).reshape(-1).tolist(),
+                          "Pi": np.array(Pi, dtype=float).tolist(), "m": m_old.tolist(), "d": d.tolist(),
+                          "grad": np.array(grad, dtype=float).reshape(-1).tolist(),
+                          "phi": np.array(phi_row, dtype=float).reshape(-1).tolist(),
+                          "out": np.array(res[0], dtype=float).reshape(-1).tolist()})
+        return res
 
     C.tt_linesearch_prowsubprob = wrap
     try:
@@ -221,8 +270,8 @@ def run_impl(case, maxiters):
     data = mk_data(case["data"])
     guess = mk_kt(case["init"])
     before = (snapshot(data), snapshot(guess))
-    rec = []
-    with recording(case["alg"], rec), quiet():
+    rec, calls = [], []
+    with recording(case["alg"], rec, calls), quiet():
         res = call(lambda: ttb.cp_apr(data, case["rank"], algorithm=case["alg"], init=guess, maxiters=maxiters,
                                       **kwargs_of(case)))
     untouched = (snapshot(data) == before[0], snapshot(guess) == before[1])
@@ -238,7 +287,7 @@ def run_impl(case, maxiters):
             "nTotal": None if "nTotalIters" not in out else float(out["nTotalIters"]),
             "init_is_guess": init_back is guess,
         }}
-    return res, rec, untouched
+    return res, rec, untouched, calls
 
 
 # ----------------------------------------------------------------------------
@@ -302,7 +351,15 @@ def canon_components(weights, factors):
     return [weights[r] for r in order], [[[row[r] for r in order] for row in f] for f in factors]
 
 
-def compare_run(r, m):
+def close_deep_abs(a, b, atol):
+    if isinstance(a, list) and isinstance(b, list):
+        return len(a) == len(b) and all(close_deep_abs(x, y, atol) for x, y in zip(a, b))
+    if isinstance(a, list) or isinstance(b, list):
+        return False
+    return close(a, b) or abs(float(a) - float(b)) <= atol * max(1.0, abs(float(a)), abs(float(b)))
+
+
+def compare_run(r, m, alg):
     """'' if the model's run `m` (bit strings) agrees with the implementation's `r`."""
     if len(r["kkt"]) != m["iters"]:
         return f"iterations: implementation {len(r['kkt'])}, model {m['iters']}"
@@ -310,16 +367,19 @@ def compare_run(r, m):
         return f"nInnerIters: implementation {r['nInner']}, model {m['nInner']}"
     if r["nViol"] and r["nViol"] != m["nViol"]:
         return f"nViolations: implementation {r['nViol']}, model {m['nViol']}"
-    if not close_deep(r["kkt"], ub(m["kkt"])):
+    # a KKT value is |min(m, 1 - phi)| with phi of order one: near convergence it is a cancelled
+    # difference, so it is compared absolutely (1e-7) on top of the relative tolerance
+    if not all(close(a, b) or abs(a - b) <= 1e-7 for a, b in zip(r["kkt"], ub(m["kkt"]))):
         return f"kktViolations: implementation {r['kkt']}, model {ub(m['kkt'])}"
     if not close(r["obj"], unbits(m["obj"])):
         return f"obj: implementation {r['obj']!r}, model {unbits(m['obj'])!r}"
+    atol = 0.0
     mw, mf = ub(m["model"]["weights"]), ub(m["model"]["factors"])
-    if close_deep(r["weights"], mw) and close_deep(r["factors"], mf):
+    if close_deep_abs(r["weights"], mw, atol) and close_deep_abs(r["factors"], mf, atol):
         return ""
     a = canon_components(r["weights"], r["factors"])
     b = canon_components(mw, mf)
-    if close_deep(a[0], b[0]) and close_deep(a[1], b[1]):
+    if close_deep_abs(a[0], b[0], atol) and close_deep_abs(a[1], b[1], atol):
         return ""
     return "returned model differs from the model's beyond 1e-9"
 
@@ -438,8 +498,8 @@ class Runs(Family):
         for ci, c in enumerate(cases):
             runs = []
             for k in range(1, c["kmax"] + 1):
-                res, rec, untouched = run_impl(c, k)
-                runs.append((k, res, rec, untouched))
+                res, rec, untouched, calls = run_impl(c, k)
+                runs.append((k, res, rec, untouched, calls))
                 reqs.append({"op": "c11_run_float", "alg": c["alg"], "data": c["data"], "init": c["init"],
                              "cfg": cfg_j(c, k), "dirs": rec})
                 where.append((ci, len(runs) - 1))
@@ -448,9 +508,29 @@ class Runs(Family):
         per_case = [[] for _ in cases]
         for (ci, _), m in zip(where, models):
             per_case[ci].append(m)
-        out = []
-        for c, runs, ms in zip(cases, impl, per_case):
-            out.append(self.judge(c, runs, ms))
+        out = [self.judge(c, runs, ms) for c, runs, ms in zip(cases, impl, per_case)]
+        # second phase: runs whose line searches were decided at rounding level are validated one
+        # line search at a time, each from the implementation's own state
+        reqs2, owner = [], []
+        for ci, v in enumerate(out):
+            if isinstance(v, tuple):
+                for call_ in v[1]:
+                    reqs2.append({"op": "c11_linesearch_float", "sparse": call_["sparse"], "x": bd(call_["x"]),
+                                  "Pi": bd(call_["Pi"]), "m": bd(call_["m"]), "d": bd(call_["d"]),
+                                  "grad": bd(call_["grad"]), "phi": bd(call_["phi"])})
+                    owner.append((ci, call_))
+        bad = {}
+        if reqs2:
+            for (ci, call_), m in zip(owner, drive(reqs2)):
+                if not close_deep(call_["out"], ub(m)) and ci not in bad:
+                    bad[ci] = f"line search from the implementation's own state differs: {call_['out']} vs {ub(m)}"
+        for ci, v in enumerate(out):
+            if isinstance(v, tuple):
+                pend, _calls, tags = v[0], v[1], v[2]
+                if ci in bad:
+                    out[ci] = Verdict("corr", bad[ci], pend.impl, pend.model, None, tags)
+                else:
+                    out[ci] = Verdict("ok", "", pend.impl, None, None, tags + ["rounding-tie"], True)
         return out
 
     def judge(self, c, runs, ms):
@@ -461,7 +541,8 @@ class Runs(Family):
             tags.append("precomp" if c["opts"]["precompinds"] else "noprecomp")
         last_ok = None
         prev = None
-        for (k, res, rec, untouched), m in zip(runs, ms):
+        pending = None
+        for (k, res, rec, untouched, calls), m in zip(runs, ms):
             if "ok" not in res:
                 msg = res.get("msg", "")
                 if c["alg"] == "pqnr" and LBFGS_MSG in msg:
@@ -475,13 +556,21 @@ class Runs(Family):
             what = property_violation(c, k, r, untouched)
             if what:
                 return Verdict("violation", f"maxiters={k}: {what}", r, None, None, tags)
+            tie = any(cl["margin"] < TIE for cl in calls)
+            what = ""
             if "ok" not in m:
-                return Verdict("corr", f"maxiters={k}: the model rejects a request the implementation answers",
-                               r, m, None, tags)
-            what = compare_run(r, m["ok"])
+                what = "the model rejects a request the implementation answers"
+            else:
+                what = compare_run(r, m["ok"], c["alg"])
             if what:
-                return Verdict("corr", f"maxiters={k}: {what}", r, {"iters": m["ok"]["iters"],
-                               "nInner": m["ok"]["nInner"], "kkt": ub(m["ok"]["kkt"])}, None, tags)
+                mm = None if "ok" not in m else {"iters": m["ok"]["iters"], "nInner": m["ok"]["nInner"],
+                                                 "kkt": ub(m["ok"]["kkt"])}
+                v = Verdict("corr", f"maxiters={k}: {what}", r, mm, None, tags)
+                if not tie:
+                    return v
+                if pending is None:
+                    firm = [cl for cl in calls if cl["margin"] >= TIE]
+                    pending = (v, firm[:80], tags)
             # runs from one start are prefixes of one another until one of them stops early
             if prev is not None and len(prev["kkt"]) == k - 1:
                 if prev["kkt"] != r["kkt"][:k - 1] or prev["nInner"] != r["nInner"][:k - 1]:
@@ -491,6 +580,10 @@ class Runs(Family):
             last_ok = r
         tags.append("converged" if len(last_ok["kkt"]) < c["kmax"] else "limit")
         tags.append(f"ndirs{min(len(runs[-1][2]) // 50, 5)}")
+        if any(cl["margin"] < TIE for run in runs for cl in run[4]):
+            tags.append("has-tie-call")
+        if pending is not None:
+            return (pending[0], pending[1], tags)
         return Verdict("ok", "", {"iters": len(last_ok["kkt"]), "obj": last_ok["obj"], "nInner": last_ok["nInner"]},
                        None, None, tags, True)
 
@@ -795,7 +888,14 @@ class Validation(Family):
             tags = [c["mut"], c["alg"] if c["alg"] in ALGS else "bad-alg", "sparse" if c["sparse"] else "dense"]
             acc_i = "ok" in i
             acc_m = bool(m["accept"])
-            if not acc_i and c["alg"] == "pqnr" and LBFGS_MSG in i.get("msg", "") and acc_m:
+            valid_but = c["mut"] in ("one-way-dense", "empty-sparse") and not acc_i and not acc_m
+            if valid_but:
+                # a count tensor the property covers; implementation (and the model that mirrors it) refuse it
+                kind = "a 1-way dense count tensor" if c["mut"] == "one-way-dense" else \
+                    "a sparse count tensor without stored entry"
+                out.append(Verdict("violation", f"cp_apr raised {i.get('exc')} on {kind}: {i.get('msg')}", i, m, None,
+                                   tags + ["reject"], False))
+            elif not acc_i and c["alg"] == "pqnr" and LBFGS_MSG in i.get("msg", "") and acc_m:
                 out.append(Verdict("violation", f"pqnr raised instead of returning: {i.get('msg')}", i, m, None,
                                    tags + ["lbfgs-assert"], False))
             elif acc_i != acc_m:
